@@ -1,4 +1,5 @@
 import Netpoll.Buf.Owner
+import Netpoll.Buf.OwnerCov
 import Driver.Lb
 /-! `npdriver own`: replays the op lines of `npdriver lb` on the ownership ledger model and prints per op
 the allocator events in the harness format (`@@ m<id>:<cap> f<id> …`), followed by ` !! <problems>` when the
@@ -164,6 +165,8 @@ def stepLine (w : W) (line : String) : String × W :=
     let out := "@@ " ++ " ".intercalate (evs.filterMap (showEv s))
     let out := if probs.isEmpty then out else out ++ " !! " ++ " ; ".intercalate probs
     let out := out ++ " %% " ++ dumpOwn s
+    -- is the call inside the part of the state space the C02 / C03 theorems speak about (`CovV`, `Cov`)?
+    let out := out ++ (if covVB s0 op then "" else if covB s0 op then " ?? outside-CovV" else " ?? outside-Cov")
     (out, { val := val, led := s })
 
 partial def loop (h : IO.FS.Stream) (out : IO.FS.Stream) (w : W) : IO Unit := do
